@@ -469,5 +469,12 @@ def rule_z6(repo):
     return res
 
 
+def rule_z7(repo):
+    """The goal sent to Z3 went through fologic.simplify / nnf: each of their cases must keep the truth table."""
+    from .c18 import converter_rule
+    return converter_rule(repo, 'C06.Z7', [('prover/fologic.py', 'simplify1'), ('prover/fologic.py', 'simplify'), ('prover/fologic.py', 'nnf')],
+                          {'simplify1', 'simplify', 'nnf'}, floor=35)
+
+
 def rules(repo):
-    return [rule_z1(repo)] + rule_z2_z3(repo) + [rule_z4(repo), rule_s1(repo), rule_s2(repo), rule_s3(repo), rule_z5(repo), rule_z6(repo)]
+    return [rule_z1(repo)] + rule_z2_z3(repo) + [rule_z4(repo), rule_s1(repo), rule_s2(repo), rule_s3(repo), rule_z5(repo), rule_z6(repo), rule_z7(repo)]
